@@ -80,6 +80,16 @@ Theorem quote_read_back : forall qws lws, (forall c, lws c = true -> qws c = tru
   = COk (mkSimple [] (OField cmd :: map OField ss)) rest.
 Proof. exact quote_args_lemma. Qed.
 
+Example quote_read_back_nonvacuous :
+  (forall c, rust_ws c = true -> rust_ws c = true) /\ ascii_ok rust_ws
+  /\ plain_cmd s_args = true /\ rest_ok [c_semi; 97]
+  /\ run_line rust_ws (s_args ++ spaced (map (quote rust_ws) [[97; 32; 98]; [39; 36]; []; [126]; [97; 12288]]) ++ [c_semi; 97])
+     = COk (mkSimple [] (map OField [s_args; [97; 32; 98]; [39; 36]; []; [126]; [97; 12288]])) [c_semi; 97].
+Proof.
+  split; [auto|]. split; [exact rust_ws_ascii_ok|]. split; [reflexivity|].
+  split; [repeat split; discriminate|]. vm_compute. reflexivity.
+Qed.
+
 Theorem quote_read_back_assign : forall qws lws, (forall c, lws c = true -> qws c = true) ->
   ascii_ok lws -> forall name s rest,
   simple_word name = true -> rest_ok rest ->
@@ -133,6 +143,23 @@ Example quote_pairs_read_back_nonvacuous :
     [([97; 91], [120]); ([97; 32; 91], [93]); ([97], [93; 91])].
 Proof. repeat constructor. Qed.
 
+(* the lines `export -p`, `readonly -p` and `typeset -p` print for variables
+   with ordinary names:  <utility> [-x] [-r] [--] name=Qvalue  or  ... name .
+   Every operand is a quoted word or name=Qvalue; the line reads back as the
+   utility with exactly those operands *)
+Theorem decl_line_reads_back : forall qws lws, (forall c, lws c = true -> qws c = true) ->
+  ascii_ok lws -> forall d os rest,
+  decl_cmd d = true -> rest_ok rest -> forallb operand_ok os = true ->
+  run_line lws (d ++ spaced (map (operand_text qws) os) ++ rest)
+  = COk (mkSimple [] (OField d :: map (fun o => OField (operand_field o)) os)) rest.
+Proof. exact decl_line_lemma. Qed.
+Example decl_line_reads_back_nonvacuous :
+  forallb operand_ok [OpWord [45; 120]; OpWord [45; 114]; OpWord [45; 45]; OpAssign [110; 49] [97; 32; 126]; OpWord [97; 32; 98]] = true
+  /\ run_line rust_ws (s_typeset ++ spaced (map (operand_text rust_ws)
+        [OpWord [45; 120]; OpWord [45; 45]; OpAssign [110; 49] [97; 58; 126]]) ++ [c_nl])
+     = COk (mkSimple [] (map OField [s_typeset; [45; 120]; [45; 45]; [110; 49; 61; 97; 58; 126]])) [c_nl].
+Proof. split; [reflexivity | vm_compute; reflexivity]. Qed.
+
 (* LISTINGS.  The texts [set_text] / [trap_text] / [alias_text] are what the
    model says `set`, `trap` and `alias` print for a state (compared with the
    real output on every run); the reader model reads them back as that state. *)
@@ -160,7 +187,7 @@ Theorem alias_listing_reads_back : forall st,
 Proof. exact alias_listing_lemma. Qed.
 
 (* without that condition it is false of the faithful model: alias "a[" with
-   value "]x" is listed as  a[=]x , a pattern (finding F8) *)
+   value "]x" is listed as  a[=]x , a pattern (finding F15) *)
 Theorem alias_listing_refuted : exists n v,
   run_line ws (alias_eval_text [(n, v)])
   = COk (mkSimple [] [OField s_alias; OField s_dd; OGlob]) [].
@@ -187,3 +214,4 @@ Print Assumptions set_listing_reads_back.
 Print Assumptions trap_listing_reads_back.
 Print Assumptions alias_listing_reads_back.
 Print Assumptions alias_listing_refuted.
+Print Assumptions decl_line_reads_back.
